@@ -103,3 +103,49 @@ def c_get_parameters(P):
         P.prove("kwarg", z3.And(zbool(P.eq(e[0], v.fields["arg"])), zbool(P.eq(e[1], v.fields["annotation"])),
                                 zbool(P.eq(e[2], kind(P, "var_keyword"))), zbool(P.eq(e[3], "{}"))))
     P.cover("get_parameters")
+
+
+# =========================================================================== Visitor.handle_function: overloads, accessors, parameters
+from specs import visitorfx as VF  # noqa: E402
+
+TRUSTED_BASE += [
+    "handle_function: extensions.call, set_member (C16), safe_get_expression / safe_get_annotation (C03), decorators_to_labels (C01), get_base_property and "
+    "get_parameters (contract above) are taken by contract; the fold 'some decorator among the first i is typing.overload' is specified by its defining equations",
+]
+
+
+@contract("C02", "handle_function.overloads_and_accessors", [VF.VS + "handle_function"], floor=5, replay="replay_handle_function", split=16)
+def c_handle_function_branches(P):
+    """Arbitrary decorator lists, accessor kinds, pending overloads, labels argument (the definition has no parameters here)."""
+    VF.handle_function_driver(P, "C02-branches")
+
+
+@contract("C02", "handle_function.parameters", [VF.VS + "handle_function"], floor=4, replay="replay_handle_function", split=16)
+def c_handle_function_params(P):
+    """Arbitrary parameter lists on an undecorated definition; lemma `parameters_statement_reads_only_the_signature` shows that the statement building the
+    parameters reads nothing the decorator / accessor / overload handling writes, so the result is the same for every decorated definition."""
+    VF.handle_function_driver(P, "C02-params")
+
+
+def lemmas(tier, seed):
+    import ast as _ast
+    from pyvc.source import SourceIndex
+    idx = SourceIndex()
+    idx.load_all()
+    mi, node, cls = idx.find_function(VF.VS + "handle_function")
+    out = []
+    stmt = next((st for st in node.body if isinstance(st, _ast.Assign) and isinstance(st.targets[0], _ast.Name) and st.targets[0].id == "parameters"), None)
+    allowed = {"self", "node", "Parameters", "Parameter", "get_parameters", "safe_get_annotation", "safe_get_expression", "name", "annotation", "kind", "default",
+               "isinstance", "str", "parameters"}
+    if stmt is None:
+        out.append({"name": "parameters_statement_reads_only_the_signature", "ok": False, "on_fail": "undecided",
+                    "detail": "handle_function no longer has a single `parameters = ...` statement; the decomposition of the proof must be revisited"})
+    else:
+        read = {n.id for n in _ast.walk(stmt) if isinstance(n, _ast.Name)}
+        attrs = {_ast.unparse(n) for n in _ast.walk(stmt) if isinstance(n, _ast.Attribute)}
+        bad = sorted(read - allowed) + sorted(a for a in attrs if a not in ("node.args", "self.current"))
+        out.append({"name": "parameters_statement_reads_only_the_signature", "ok": not bad,
+                    "detail": "the statement that builds Function.parameters reads only node.args, self.current and the expression builders"
+                              + (f"; also reads {bad}" if bad else "")})
+    out.append(VF.ownership_lemma(idx))
+    return out
